@@ -201,6 +201,44 @@ def parse_arch_context(path):
     return res
 
 
+WRAPPERS = [("libmcount/mcount.c", "mcount_entry", "__mcount_entry"), ("libmcount/mcount.c", "mcount_exit", "__mcount_exit"),
+            ("libmcount/plthook.c", "plthook_entry", "__plthook_entry"), ("libmcount/plthook.c", "plthook_exit", "__plthook_exit"),
+            ("libmcount/mcount.c", "xray_entry", "_xray_entry"), ("libmcount/mcount.c", "xray_exit", "_xray_exit")]
+
+
+def parse_wrappers():
+    """the C wrappers the stubs call: is the inner hook bracketed by the xmm save/restore pair and by
+    the errno save/restore?  -> [(name, xmm_wrapped, errno_wrapped)]"""
+    res = []
+    for path, name, inner in WRAPPERS:
+        src = open(os.path.join(REPO, path)).read()
+        src = re.sub(r"/\*.*?\*/", " ", src, flags=re.S)
+        m = re.search(r"^[A-Za-z_][\w \*]*\b%s\s*\([^)]*\)\s*\{(.*?)^\}" % re.escape(name), src, flags=re.S | re.M)
+        if not m:
+            raise Unknown("%s: wrapper %s not found" % (path, name))
+        stmts = [re.sub(r"\s+", " ", x).strip() for x in m.group(1).split(";")]
+        def find(pat, after=-1):
+            for i, st in enumerate(stmts):
+                if i > after and re.search(pat, st):
+                    return i
+            return None
+        call = find(r"\b%s\s*\(" % re.escape(inner))
+        if call is None:
+            raise Unknown("%s: %s does not call %s" % (path, name, inner))
+        sv = find(r"^mcount_save_arch_context\(&(\w+)\)$")
+        xmm = False
+        if sv is not None and sv < call:
+            var = re.search(r"&(\w+)", stmts[sv]).group(1)
+            rs = find(r"^mcount_restore_arch_context\(&%s\)$" % var, call)
+            ret = find(r"^return\b", call)
+            xmm = rs is not None and (ret is None or rs < ret) and re.search(r"struct mcount_arch_context %s\b" % var, m.group(1)) is not None
+        es = find(r"\bsaved_errno = errno$")
+        er = find(r"^errno = saved_errno$", call)
+        errno_ok = es is not None and es < call and er is not None
+        res.append((name, xmm, errno_ok))
+    return res
+
+
 def slot_bytes():
     """sizeof(ctx->xmm[0]) and number of slots, from /repo's header"""
     prog = ('#include <stdio.h>\n#include <stdbool.h>\n#include "mcount-arch.h"\n'
@@ -225,6 +263,7 @@ def main():
             funcs += [(f, s, ins) for s, ins in parse_S(os.path.join(REPO, "arch/x86_64", f))]
         ctx = parse_arch_context(os.path.join(REPO, "arch/x86_64/mcount-support.c"))
         sb, ns = slot_bytes()
+        wr = parse_wrappers()
     except (Unknown, OSError) as e:
         sys.stderr.write("gen_stubs: %s\n" % e)
         return 1
@@ -243,6 +282,10 @@ def main():
     v.append("Definition arch_ctx_slots : nat := %d." % ns)
     v.append("Definition arch_ctx_save : list xop :=\n  [ %s ]." % ";\n    ".join(ctx["mcount_save_arch_context"]))
     v.append("Definition arch_ctx_restore : list xop :=\n  [ %s ]." % ";\n    ".join(ctx["mcount_restore_arch_context"]))
+    v.append("")
+    v.append("(* C wrappers the stubs call: (name, inner hook bracketed by save/restore of xmm0-7, by save/restore of errno) *)")
+    v.append("Definition hook_wrappers : list (string * (bool * bool)) :=\n  [ %s ]." %
+             ";\n    ".join('("%s", (%s, %s))' % (n, "true" if a else "false", "true" if b else "false") for n, a, b in wr))
     text = "\n".join(v) + "\n"
     try:
         if open(OUT).read() == text:
